@@ -2799,6 +2799,7 @@ void SoPlexBase<R>::clearLPReal()
    _realLP->clear();
    _realLP->changeSense(intParam(SoPlexBase<R>::OBJSENSE) == SoPlexBase<R>::OBJSENSE_MAXIMIZE ?
                         SPxLPBase<R>::MAXIMIZE : SPxLPBase<R>::MINIMIZE);
+   _realLP->changeObjOffset(realParam(SoPlexBase<R>::OBJ_OFFSET));
    _isRealLPScaled = false;
    _hasBasis = false;
    _rationalLUSolver.clear();
@@ -2808,6 +2809,7 @@ void SoPlexBase<R>::clearLPReal()
       _rationalLP->clear();
       _rationalLP->changeSense(intParam(SoPlexBase<R>::OBJSENSE) == SoPlexBase<R>::OBJSENSE_MAXIMIZE ?
                                SPxLPRational::MAXIMIZE : SPxLPRational::MINIMIZE);
+      _rationalLP->changeObjOffset(realParam(SoPlexBase<R>::OBJ_OFFSET));
       _rowTypes.clear();
       _colTypes.clear();
    }
@@ -3734,6 +3736,7 @@ void SoPlexBase<R>::clearLPRational()
    _rationalLP->clear();
    _rationalLP->changeSense(intParam(SoPlexBase<R>::OBJSENSE) == SoPlexBase<R>::OBJSENSE_MAXIMIZE ?
                             SPxLPRational::MAXIMIZE : SPxLPRational::MINIMIZE);
+   _rationalLP->changeObjOffset(realParam(SoPlexBase<R>::OBJ_OFFSET));
    _rationalLUSolver.clear();
    _rowTypes.clear();
    _colTypes.clear();
@@ -3743,6 +3746,7 @@ void SoPlexBase<R>::clearLPRational()
       _realLP->clear();
       _realLP->changeSense(intParam(SoPlexBase<R>::OBJSENSE) == SoPlexBase<R>::OBJSENSE_MAXIMIZE ?
                            SPxLPBase<R>::MAXIMIZE : SPxLPBase<R>::MINIMIZE);
+      _realLP->changeObjOffset(realParam(SoPlexBase<R>::OBJ_OFFSET));
       _isRealLPScaled = false;
       _hasBasis = false;
    }
